@@ -175,6 +175,41 @@ func checkC07(c *Ctx) {
 			}
 		}
 	}
+	// the share itself is one request: no retry - a peer that was slow, or answered with an error, has already received
+	// the message (and may have taken the registration over); sending it again delivers it more than once
+	{
+		var posts []string
+		okOnce := true
+		var pos token.Pos
+		if root := c.P.Func(repoMod+"/"+lib, "", "tryShareRegistrationOverAPI"); root != nil && root.Blocks != nil {
+			pos = root.Pos()
+			eachInstrDeep(root, 2, func(in ssa.Instruction, d deepCtx) {
+				call, ok := in.(*ssa.Call)
+				if !ok {
+					return
+				}
+				n := calleeName(&call.Call)
+				isPost := strings.HasPrefix(n, "net/http.Post") || n == "(*net/http.Client).Post" || n == "(*net/http.Client).Do" || n == "(*net/http.Client).PostForm"
+				if !isPost {
+					return
+				}
+				posts = append(posts, fnName(d.f)+": "+shortName(n))
+				// not re-executed: neither the request nor any call on the way to it sits in a loop
+				if again, _ := reach(d.f, call, isInstr(call), nil, nil); again {
+					okOnce = false
+				}
+				for i, cs := range d.chain {
+					if again, _ := reach(d.fns[i], cs, isInstr(cs), nil, nil); again {
+						okOnce = false
+					}
+				}
+			})
+			r.Check(okOnce && len(posts) == 1, "C07.6", "tryShareRegistrationOverAPI: exactly one HTTP request per shared registration, never repeated", pos, fnName(root), fmt.Sprint(posts),
+				"the share request can be sent more than once for one registration (a retry loop, or several requests): a slow or erroring peer has already received the first one, so the registration reaches peer stations more than once")
+		} else {
+			r.Unk("C07.6", "tryShareRegistrationOverAPI", token.NoPos, "", "function not found")
+		}
+	}
 	if g := c.fn("C07.6", lib, "DecoyRegistration", "GenerateC2SWrapper"); g != nil {
 		nRet := 0
 		okAll := true
